@@ -49,9 +49,14 @@ func runOne(ctx context.Context, sd solverDef, script string, timeoutS int) Solv
 	_ = cmd.Run()
 	el := time.Since(start).Seconds()
 	o := out.String()
-	first := strings.TrimSpace(o)
-	if i := strings.IndexByte(first, '\n'); i >= 0 {
-		first = strings.TrimSpace(first[:i])
+	first := ""
+	for _, ln := range strings.Split(o, "\n") {
+		ln = strings.TrimSpace(ln)
+		if ln == "" || strings.HasPrefix(ln, "WARNING") || strings.HasPrefix(ln, "(warning") {
+			continue
+		}
+		first = ln
+		break
 	}
 	st := "error"
 	switch first {
